@@ -2,11 +2,20 @@
 //! differently from the code").  Pure integer arithmetic, no crate types.
 #![allow(dead_code)]
 
-/// Harness assertion with the property label the runner keys on.
+/// Harness obligation with the property label the runner keys on.
+///
+/// Under Kani this is a *cover* of the negated condition, not an assertion: a Kani assertion is also an
+/// assumption, i.e. the first failing obligation would cut the path and mask every later obligation on it
+/// (in the shared page-table harnesses an earlier `VP[C10]` failure hid a later `VP[C01]` one).  The runner
+/// reads `VP[..]` covers as: SATISFIED = the obligation is violated (with a concrete witness), UNSATISFIABLE /
+/// UNREACHABLE = it holds.  In a native replay build (`cfg(test)`) the same macro is a plain `assert!`.
 macro_rules! vp {
-    ($id:ident, $cond:expr, $msg:literal) => {
-        kani::assert($cond, concat!("VP[", stringify!($id), "]: ", $msg))
-    };
+    ($id:ident, $cond:expr, $msg:literal) => {{
+        #[cfg(not(test))]
+        kani::cover(!($cond), concat!("VP[", stringify!($id), "]: ", $msg));
+        #[cfg(test)]
+        assert!($cond, concat!("VP[", stringify!($id), "]: ", $msg));
+    }};
 }
 pub(crate) use vp;
 
